@@ -7,7 +7,7 @@
 EXTENDS TraceBatch, FiniteSets
 
 CONSTANTS MaxId, EndT, WarmT, Prios, RelDelays, AbsTimes, BadKinds, MaxOps, Strategy,
-          Bounds, MaxInits, AllowFaults, StratOps, MaxCmds, Cmds,
+          Bounds, MaxInits, AllowFaults, StratOps, EndRepOps, MaxCmds, Cmds,
           PrintStats    \* BOOLEAN: print what the simulation statistics must report at quiescent observations (C11)
 VARIABLES rs, rep, clock, ev, pending, bound, incl, mode, seg, executed, prog, initOps,
           ann, due, notif, nrep, premature, ncmd, strat, op,
@@ -55,7 +55,7 @@ Step ==
            ELSE statmemo' = statmemo
         /\ UNCHANGED dvars
 
-Silent == /\ Live /\ (D!SegmentEnd \/ D!StepEnd) /\ UNCHANGED <<tid, l, statmemo>>
+Silent == /\ Live /\ (D!SegmentEnd \/ D!StepEnd \/ D!HandlerEndRep) /\ UNCHANGED <<tid, l, statmemo>>
 
 TraceNext == Step \/ Silent
 TraceSpec == TraceInit /\ [][TraceNext]_<<tid, l, dvars, statmemo>>
